@@ -304,13 +304,29 @@ impl<'a> Recovery<'a> {
             return;
         }
         // nested: crash the recovery run itself
-        if depth < 2 && !self.torn && observed.is_some() && rng.chance(1, 6) {
+        let nest = if self.torn { depth < 1 && rng.chance(1, 4) } else { depth < 2 && rng.chance(1, 6) };
+        if nest && observed.is_some() {
             let log = fs.mut_log();
             if !log.is_empty() {
-                let m = rng.usize_below(log.len() + 1);
+                // torn mode: the second crash tears a write of the recovery run itself (its own
+                // manifest / WAL / table writes), otherwise it falls between two operations
+                let torn_writes: Vec<usize> = if self.torn { log.iter().enumerate().filter(|(_, o)| matches!(&o.op, MutOp::Write { data, .. } if data.len() >= 2)).map(|(i, _)| i).collect() } else { vec![] };
+                let (m, cut) = if !torn_writes.is_empty() {
+                    let m = *rng.pick(&torn_writes);
+                    let len = match &log[m].op {
+                        MutOp::Write { data, .. } => data.len(),
+                        _ => 2,
+                    };
+                    (m, Some(1 + rng.usize_below(len - 1)))
+                } else {
+                    (rng.usize_below(log.len() + 1), None)
+                };
                 let mut st = state.clone();
                 for op in &log[..m] {
                     st.apply(&op.op, None);
+                }
+                if let Some(c) = cut {
+                    st.apply(&log[m].op, Some(c));
                 }
                 let mut acked = expect.acked.clone();
                 let mut optional: Vec<Items> = vec![];
@@ -323,13 +339,17 @@ impl<'a> Recovery<'a> {
                 for w in &post {
                     if w.ret_len <= m {
                         apply_items(&mut acked, &w.items);
-                    } else if w.inv_len < m {
+                    } else if w.inv_len < m || (cut.is_some() && w.inv_len <= m) {
                         optional.push(w.items.clone());
                     }
                 }
                 with_out(self.out, |o| o.stats.probe("crash_inside_recovery"));
                 let e2 = Expect { acked, optional };
-                self.check_image(&st, &e2, &format!("nested after {}", describe(log.get(m.wrapping_sub(1)))), point, depth + 1, rng);
+                let label2 = match cut {
+                    Some(c) => format!("nested torn {} bytes of {}", c, describe(log.get(m))),
+                    None => format!("nested after {}", describe(log.get(m.wrapping_sub(1)))),
+                };
+                self.check_image(&st, &e2, &label2, point, depth + 1, rng);
             }
         }
         let _ = self.run_seed;
